@@ -248,9 +248,18 @@ def strip_comments(src):
     return src
 
 
-def audit(modules):
-    """#print axioms on every theorem of the property modules + textual scan of the whole project."""
+def audit(modules, recheck=False):
+    """#print axioms on every theorem of the property modules + textual scan of the whole project;
+    `recheck`: also replay the compiled modules through leanchecker (the toolchain's independent
+    re-checker of .olean files)."""
     res = {"theorems": [], "bad_axioms": [], "forbidden": [], "ok": True, "log": ""}
+    if recheck:
+        t0 = time.time()
+        rc, out, err = sh(["lake", "env", "leanchecker"] + list(modules), cwd=LEAN)
+        res["leanchecker"] = {"rc": rc, "s": round(time.time() - t0, 1), "modules": list(modules)}
+        if rc != 0:
+            res["ok"] = False
+            res["bad_axioms"].append({"theorem": "<leanchecker>", "axioms": [(out + err)[-500:]]})
     all_names = []
     for mod in modules:
         names, _ = theorem_names(mod)
@@ -571,8 +580,10 @@ def check(prop, tier, seed):
         violations.append((rp, "no-failing-input-found"))
         aud = {"ok": False, "theorems": [], "bad_axioms": [], "forbidden": []}
     else:
-        aud = audit(mods)
+        aud = audit(mods, recheck=(tier == "thorough"))
         cov["theorems"] = aud["theorems"]
+        if "leanchecker" in aud:
+            cov["leanchecker"] = aud["leanchecker"]
         if aud["ok"]:
             discharged += len(names)
         else:
@@ -858,7 +869,7 @@ def check_c16(tier, seed):
                                   "what": "lake build of %s failed" % mods, "errors": failing, "log": log_l})
                 violations.append((rp, "no-failing-input-found"))
         else:
-            aud = audit(mods)
+            aud = audit(mods, recheck=(tier == "thorough"))
             cov["theorems"] = aud["theorems"]
             if aud["ok"]:
                 discharged += len(names)
